@@ -263,17 +263,17 @@ COORD_OK = ("is_jlist({c}) and jlen({c}) == 3 and is_jint({c}[0]) and is_jint({c
 
 contract(F, 'TableValidator._valid_sparse_data', tier='P', props=['C15'],
     types={'self': 'Obj:TableValidator', 'table_json': 'JSON'},
-    requires=["is_jint(%s['shape'][0]) and is_jint(%s['shape'][1])" % (T, T)],
+    returns='Str',
     ensures=[
         # '' (no complaint) only if every entry is an integer triple inside the declared shape whose value has the
-        # declared element type
-        "implies(result == '', all(%s for k in range(jlen(%s['data']))))"
-        % (COORD_OK.format(c="%s['data'][k]" % T, t=T), T),
+        # declared element type (for a shape that is not a pair of integers nothing is claimed: _valid_shape reports it)
+        "implies(result == '' and is_jint(%s['shape'][0]) and is_jint(%s['shape'][1]), all(%s for k in range(jlen(%s['data']))))"
+        % (T, T, COORD_OK.format(c="%s['data'][k]" % T, t=T), T),
     ],
     raises=ANY_EXC, modifies=[],
     loops={0: dict(header="for idx, coord in enumerate(table_json['data'])", invariant=[
-        "all(%s for k in range(0, __i0))" % COORD_OK.format(c="%s['data'][k]" % T, t=T),
-        "n_rows == jint(%s['shape'][0]) - 1 and n_cols == jint(%s['shape'][1]) - 1" % (T, T),
+        "implies(is_jint(%s['shape'][0]) and is_jint(%s['shape'][1]), all(%s for k in range(0, __i0)))" % (T, T, COORD_OK.format(c="%s['data'][k]" % T, t=T)),
+        "implies(is_jint(%s['shape'][0]) and is_jint(%s['shape'][1]), n_rows == jint(%s['shape'][0]) - 1 and n_cols == jint(%s['shape'][1]) - 1)" % (T, T, T, T),
     ])})
 
 contract(F, 'TableValidator._valid_metadata', tier='P', props=['C15'],
@@ -288,13 +288,13 @@ contract(F, 'TableValidator._valid_id', tier='P', props=['C15'],
     raises=ANY_EXC, modifies=[])
 
 contract(F, 'TableValidator._valid_matrix_type', tier='P', props=['C15'],
-    types={'self': 'Obj:TableValidator', 'table_json': 'JSON'},
+    types={'self': 'Obj:TableValidator', 'table_json': 'JSON'}, returns='Str',
     ensures=["implies(result == '', is_jstr(%s['matrix_type']) and "
              "(jstr(%s['matrix_type']) == 'sparse' or jstr(%s['matrix_type']) == 'dense'))" % (T, T, T)],
     raises=ANY_EXC, modifies=[])
 
 contract(F, 'TableValidator._valid_matrix_element_type', tier='P', props=['C15'],
-    types={'self': 'Obj:TableValidator', 'table_json': 'JSON'},
+    types={'self': 'Obj:TableValidator', 'table_json': 'JSON'}, returns='Str',
     ensures=["implies(result == '', is_jstr(%s['matrix_element_type']) and "
              "jstr(%s['matrix_element_type']) in ('int', 'str', 'float', 'unicode'))" % (T, T)],
     raises=ANY_EXC, modifies=[])
@@ -345,7 +345,7 @@ def _vw_may_inline(self, fv):
 ValidatorWorld.may_inline = _vw_may_inline
 
 contract(F, 'TableValidator._valid_shape', tier='P', props=['C15'],
-    types={'self': 'Obj:TableValidator', 'table': 'JSON'},
+    types={'self': 'Obj:TableValidator', 'table': 'JSON'}, returns='Str',
     ensures=["implies(result == '', jhas(table, 'shape') and is_jlist(table['shape']) and jlen(table['shape']) == 2 "
              "        and is_jint(table['shape'][0]) and is_jint(table['shape'][1]))"],
     raises=ANY_EXC, modifies=[])
@@ -357,7 +357,7 @@ REC_OK = ("jhas({r}, 'id') and not is_jnull({r}['id']) and not (is_jstr({r}['id'
 def _records_contract(fn, key, var):
     R = "%s['%s']" % (T, key)
     contract(F, 'TableValidator.' + fn, tier='P', props=['C15'],
-        types={'self': 'Obj:TableValidator', 'table_json': 'JSON'},
+        types={'self': 'Obj:TableValidator', 'table_json': 'JSON'}, returns='Str',
         locals={'required_by_type': 'Dict[Str,Val]'},
         ensures=[
             # no complaint only if every record has a non-empty id and null-or-object metadata ...
@@ -377,3 +377,197 @@ def _records_contract(fn, key, var):
 
 _records_contract('_valid_rows', 'rows', 'row')
 _records_contract('_valid_columns', 'columns', 'col')
+
+
+# ---- dense matrices, the dispatcher and the composition -----------------------------------------------------
+lower_s = z3.Function('str_lower', Str, Str)
+ASSUMED['str.lower'] = ("str.lower is an uninterpreted function of the string with lower('sparse') == 'sparse' and "
+                        "lower('dense') == 'dense' (the two literals the validator compares with)")
+ASSUMED['functools.reduce(and_)'] = ('reduce(operator.and_, bools) of a non-empty list of booleans is their conjunction; '
+                                     'of an empty list it raises TypeError')
+ASSUMED['_valid_date'] = 'TableValidator._valid_date returns a string and changes nothing (datetime.strptime is not modelled)'
+
+
+def _vw_method3(self, eng, st, recv, name, args, kwargs, node, starv=None, dstar=None):
+    if name == 'lower' and recv.kind in ('json', 'str'):
+        self.used.add('str.lower')
+        if recv.kind == 'json':
+            yes, no = eng.fork(st, recv.is_('str'))
+            return [Result(s, VStr(lower_s(js(recv.term)))) for s in yes] + [eng.exc(s, 'AttributeError') for s in no]
+        return [Result(st, VStr(lower_s(recv.term)))]
+    return _prev_method3(self, eng, st, recv, name, args, kwargs, node, starv, dstar)
+
+
+_prev_method3 = ValidatorWorld.call_method
+ValidatorWorld.call_method = _vw_method3
+
+
+def _vw_builtin3(self, eng, st, name, args, kwargs, node, starv=None, dstar=None):
+    if name == 'reduce':
+        f, seq = args[0], args[1]
+        if not (f.kind == 'fn' and f.fk == 'builtin' and f.name == 'and_' and seq.kind == 'ref'
+                and isinstance(st.node(seq), Arr) and st.node(seq).elem == 'bool'):
+            raise EngineError('%s:%d: reduce outside the modelled shape reduce(and_, [bool...])' % (eng.rel, node.lineno))
+        self.used.add('functools.reduce(and_)')
+        n = st.node(seq)
+        q = fresh('rq', I)
+        out = []
+        yes, no = eng.fork(st, n.n > 0)
+        for s in yes:
+            out.append(Result(s, VBool(z3.ForAll([q], z3.Implies(z3.And(0 <= q, q < n.n), n.a[q]), patterns=[n.a[q]]))))
+        for s in no:
+            out.append(eng.exc(s, 'TypeError'))
+        return out
+    return _prev_builtin3(self, eng, st, name, args, kwargs, node, starv, dstar)
+
+
+_prev_builtin3 = ValidatorWorld.call_builtin
+ValidatorWorld.call_builtin = _vw_builtin3
+
+
+def _vw_global3(self, eng, st, n):
+    if n in ('reduce', 'and_'):
+        return VFn('builtin', name=n)
+    return _prev_global3(self, eng, st, n)
+
+
+_prev_global3 = ValidatorWorld.global_name
+ValidatorWorld.global_name = _vw_global3
+
+
+def _vw_globals_for3(self, eng, st, c):
+    out = _prev_globals_for3(self, eng, st, c)
+    st.assume(lower_s(smt.str_lit('sparse')) == smt.str_lit('sparse'), lower_s(smt.str_lit('dense')) == smt.str_lit('dense'))
+    return out
+
+
+_prev_globals_for3 = ValidatorWorld.globals_for
+ValidatorWorld.globals_for = _vw_globals_for3
+
+
+def _vw_spec3(self, eng, st, n, e, bound):
+    if n == 'lower':
+        v = eng.sev(e.args[0], st, bound)
+        return VStr(lower_s(js(v.term) if v.kind == 'json' else v.term))
+    return _prev_spec3(self, eng, st, n, e, bound)
+
+
+_prev_spec3 = ValidatorWorld.spec_call
+ValidatorWorld.spec_call = _vw_spec3
+
+ROW_OK = ("len({r}) == {t}['shape'][1] and "
+          "all(py_isinstance({r}[j], {t}['matrix_element_type']) for j in range(jlen({r})))")
+DENSE_OK = ("all(%s for k in range(jlen({t}['data']))) and len({t}['data']) == {t}['shape'][0]"
+            % ROW_OK.replace('{r}', "{t}['data'][k]"))
+
+contract(F, 'TableValidator._valid_dense_data', tier='P', props=['C15'],
+    types={'self': 'Obj:TableValidator', 'table_json': 'JSON'}, returns='Str',
+    ensures=[
+        # no complaint only if every row has the declared number of columns, every element the declared type, and the
+        # number of rows is the declared one
+        "implies(result == '', %s)" % DENSE_OK.format(t=T),
+    ],
+    raises=ANY_EXC, modifies=[],
+    loops={0: dict(header="for row in table_json['data']", invariant=[
+        "all(%s for k in range(0, __i0))" % ROW_OK.format(r="%s['data'][k]" % T, t=T),
+        "n_cols == %s['shape'][1] and n_rows == %s['shape'][0]" % (T, T),
+    ])})
+
+SPARSE_OK = "all(%s for k in range(jlen({t}['data'])))" % COORD_OK.replace('{c}', "{t}['data'][k]")
+
+contract(F, 'TableValidator._valid_data', tier='P', props=['C15'],
+    types={'self': 'Obj:TableValidator', 'table_json': 'JSON'}, returns='Str',
+    ensures=[
+        "implies(result == '', lower(%s['matrix_type']) == 'sparse' or lower(%s['matrix_type']) == 'dense')" % (T, T),
+        "implies(result == '' and lower(%s['matrix_type']) == 'sparse' and is_jint(%s['shape'][0]) and is_jint(%s['shape'][1]), %s)"
+        % (T, T, T, SPARSE_OK.format(t=T)),
+        "implies(result == '' and lower(%s['matrix_type']) == 'dense', %s)" % (T, DENSE_OK.format(t=T)),
+    ],
+    raises=ANY_EXC, modifies=[])
+
+# the remaining header validators (each: what "no complaint" means for a JSON document)
+contract(F, 'TableValidator._valid_date', tier='A', props=[], kind='assumed',
+    types={'self': 'Obj:TableValidator', 'val': 'JSON'}, returns='Str', ensures=[], assumes=[ASSUMED['_valid_date']])
+
+contract(F, 'TableValidator._valid_format', tier='P', props=['C15'],
+    types={'self': 'Obj:TableValidator', 'table_json': 'JSON'}, returns='Str',
+    ensures=["implies(result == '', jhas(table_json, 'format'))"], raises=ANY_EXC, modifies=[])
+
+contract(F, 'TableValidator._valid_format_url', tier='P', props=['C15'],
+    types={'self': 'Obj:TableValidator', 'table': 'JSON'}, returns='Str',
+    ensures=["implies(result == '', jhas(table, 'format_url') and is_jstr(table['format_url']) "
+             "        and jstr(table['format_url']) == 'http://biom-format.org')"], raises=ANY_EXC, modifies=[])
+
+contract(F, 'TableValidator._valid_type', tier='P', props=['C15'],
+    types={'self': 'Obj:TableValidator', 'table': 'JSON'}, returns='Str',
+    ensures=["implies(result == '', jhas(table, 'type') and is_jstr(table['type']) and len(jstr(table['type'])) > 0)"],
+    raises=ANY_EXC, modifies=[])
+
+contract(F, 'TableValidator._valid_generated_by', tier='P', props=['C15'],
+    types={'self': 'Obj:TableValidator', 'table': 'JSON'}, returns='Str',
+    ensures=["implies(result == '', jhas(table, 'generated_by') and not is_jnull(table['generated_by']))"],
+    raises=ANY_EXC, modifies=[])
+
+contract(F, 'TableValidator._valid_nullable_id', tier='P', props=['C15'],
+    types={'self': 'Obj:TableValidator', 'table_json': 'JSON'}, returns='Str',
+    ensures=["result == ''"], raises={}, modifies=[])
+
+contract(F, 'TableValidator._valid_datetime', tier='A', props=['C15'],
+    types={'self': 'Obj:TableValidator', 'table': 'JSON'}, returns='Str',
+    ensures=[], raises=ANY_EXC, modifies=[])
+
+# ---- the composition: what "valid_table is True" means for a JSON document ---------------------------------------
+_KEYS = ['format', 'format_url', 'type', 'rows', 'columns', 'shape', 'data', 'matrix_type', 'matrix_element_type',
+         'generated_by', 'id', 'date']
+TJ = "kwargs['table']"
+_VALID = "result['valid_table']"
+
+
+def _recs(key):
+    R = "%s['%s']" % (TJ, key)
+    return ("all(%s for k in range(jlen(%s))) and "
+            "all(implies(k1 < k2, %s[k1]['id'] != %s[k2]['id']) for k1 in range(jlen(%s)) for k2 in range(jlen(%s)))"
+            % (REC_OK.format(r=R + '[k]'), R, R, R, R, R))
+
+
+_TJL = "table_json"
+_CLAUSE = {
+    'rows': _recs('rows').replace(TJ, _TJL), 'columns': _recs('columns').replace(TJ, _TJL),
+    'shape': "is_jlist(%s['shape']) and jlen(%s['shape']) == 2 and is_jint(%s['shape'][0]) and is_jint(%s['shape'][1])" % ((_TJL,) * 4),
+    'data': "(lower(%s['matrix_type']) == 'sparse' or lower(%s['matrix_type']) == 'dense') and "
+            "implies(lower(%s['matrix_type']) == 'sparse' and is_jint(%s['shape'][0]) and is_jint(%s['shape'][1]), %s) and "
+            "implies(lower(%s['matrix_type']) == 'dense', %s)"
+            % (_TJL, _TJL, _TJL, _TJL, _TJL, SPARSE_OK.format(t=_TJL), _TJL, DENSE_OK.format(t=_TJL)),
+    'matrix_type': "is_jstr(%s['matrix_type']) and (jstr(%s['matrix_type']) == 'sparse' or jstr(%s['matrix_type']) == 'dense')" % ((_TJL,) * 3),
+    'matrix_element_type': "is_jstr(%s['matrix_element_type']) and jstr(%s['matrix_element_type']) in ('int', 'str', 'float', 'unicode')" % ((_TJL,) * 2),
+}
+# the loop over the twelve (field, validator) pairs: once a pair has been passed with valid_table still true, its field
+# is present and its validator had no complaint
+_VJ_INV = ["implies(valid_table and __i0 > %d, jhas(%s, '%s')%s)" % (p, _TJL, k, (' and ' + _CLAUSE[k]) if k in _CLAUSE else '')
+           for p, k in enumerate(_KEYS)] + ["table_json == kwargs['table']"]
+
+contract(F, 'TableValidator._validate_json', tier='P', props=['C15'],
+    types={'self': 'Obj:TableValidator', 'kwargs': 'Dict[Str,JSON]'},
+    locals={'report_lines': 'Arr[Str]'},
+    requires=["'table' in kwargs and 'format_version' in kwargs"],
+    returns='Dict[Str,Val]',
+    ensures=[
+        # reported valid only if ... no required field is missing,
+        "implies(%s, %s)" % (_VALID, ' and '.join("jhas(%s, '%s')" % (TJ, k) for k in _KEYS)),
+        # the declared shape is a pair of integers that agrees with the number of ids on both axes,
+        "implies(%s, is_jint(%s['shape'][0]) and is_jint(%s['shape'][1]) and len(%s['rows']) == %s['shape'][0] "
+        "        and len(%s['columns']) == %s['shape'][1])" % (_VALID, TJ, TJ, TJ, TJ, TJ, TJ),
+        # ids are non-empty and not duplicated on their axis, metadata is an object or null,
+        "implies(%s, %s)" % (_VALID, _recs('rows')),
+        "implies(%s, %s)" % (_VALID, _recs('columns')),
+        # matrix type and element type are from the vocabulary,
+        "implies(%s, is_jstr(%s['matrix_type']) and (jstr(%s['matrix_type']) == 'sparse' or jstr(%s['matrix_type']) == 'dense'))"
+        % (_VALID, TJ, TJ, TJ),
+        "implies(%s, is_jstr(%s['matrix_element_type']) and jstr(%s['matrix_element_type']) in ('int', 'str', 'float', 'unicode'))"
+        % (_VALID, TJ, TJ),
+        # every sparse coordinate lies inside the shape and every element has the declared type
+        "implies(%s and jstr(%s['matrix_type']) == 'sparse', %s)" % (_VALID, TJ, SPARSE_OK.format(t=TJ)),
+        "implies(%s and jstr(%s['matrix_type']) == 'dense', %s)" % (_VALID, TJ, DENSE_OK.format(t=TJ)),
+    ],
+    raises=ANY_EXC, modifies=['self._format_version'],
+    loops={0: dict(header="for key, method in required_keys", invariant=_VJ_INV)})
